@@ -12,15 +12,19 @@ import (
 
 // Solver is one long-lived SMT solver process driven over a pipe.
 type Solver struct {
-	name   string
-	cmd    *exec.Cmd
-	in     io.WriteCloser
-	out    *bufio.Reader
-	pr     *printer
-	buf    strings.Builder
-	stats  *SolverStats
-	broken bool
-	log    io.Writer
+	name          string
+	cmd           *exec.Cmd
+	in            io.WriteCloser
+	out           *bufio.Reader
+	pr            *printer
+	buf           strings.Builder
+	stats         *SolverStats
+	broken        bool
+	timedOut      bool
+	hardTimeoutMs int
+	kind          string
+	timeoutMs     int
+	log           io.Writer
 }
 
 type SolverStats struct {
@@ -60,7 +64,7 @@ func NewSolver(kind string, timeoutMs int) (*Solver, error) {
 	if err := cmd.Start(); err != nil {
 		return nil, err
 	}
-	s := &Solver{name: kind, cmd: cmd, in: in, out: bufio.NewReaderSize(outp, 1<<16), stats: &SolverStats{}}
+	s := &Solver{name: kind, cmd: cmd, in: in, out: bufio.NewReaderSize(outp, 1<<16), stats: &SolverStats{}, kind: kind, timeoutMs: timeoutMs, hardTimeoutMs: timeoutMs + timeoutMs/2 + 5000}
 	s.pr = &printer{out: &s.buf}
 	s.resetScope()
 	s.send("(set-option :produce-models true)\n")
@@ -125,13 +129,36 @@ const (
 	Unknown
 )
 
+// readLine reads one answer line. The solver's own soft timeout (-t) is not honoured inside some
+// preprocessing steps, so a hard wall-clock limit is enforced here: when it expires the process is
+// killed and the query counts as unknown (the caller restarts the solver).
 func (s *Solver) readLine() string {
-	line, err := s.out.ReadString('\n')
-	if err != nil {
-		s.broken = true
-		return "(error \"solver pipe closed\")"
+	type res struct {
+		line string
+		err  error
 	}
-	return strings.TrimSpace(line)
+	ch := make(chan res, 1)
+	go func() {
+		line, err := s.out.ReadString('\n')
+		ch <- res{line, err}
+	}()
+	limit := time.Duration(s.hardTimeoutMs) * time.Millisecond
+	if limit <= 0 {
+		limit = 5 * time.Minute
+	}
+	select {
+	case r := <-ch:
+		if r.err != nil {
+			s.broken = true
+			return "(error \"solver pipe closed\")"
+		}
+		return strings.TrimSpace(r.line)
+	case <-time.After(limit):
+		s.timedOut = true
+		s.broken = true
+		s.cmd.Process.Kill()
+		return "(error \"solver hard timeout\")"
+	}
 }
 
 // CheckWith asks whether path-condition ∧ extra is satisfiable; on Sat returns a model
